@@ -9,7 +9,7 @@ import ast
 
 from .core import FUNC_TYPES, call_name, decorators, norm, own_nodes, short
 
-SANITISERS = {'sorted', 'sorted_definitions', '_sort_names_by_start_pos', '_remove_duplicates_from_path'}
+SANITISERS = {'sorted', 'sorted_definitions', '_sort_names_by_start_pos'}
 SET_MAKERS = {'set', 'frozenset', 'unite'}
 SEQ_MAKERS = {'list', 'tuple', 'reversed', 'iter', 'chain', 'from_iterable', 'filter', 'map', 'enumerate', 'zip'}
 VS_LIST_METHODS = {'get_signatures', 'goto', 'iterate', 'py__iter__'}   # ValueSet methods that walk the frozenset
